@@ -558,7 +558,8 @@ class DataPack:
         :return: Minecraft function call string / The command itself
         """
 
-        if "\n" not in command and not force_create_func:
+        # an empty command (an arrow function without commands) cannot stand after `run`: it needs a function
+        if command and "\n" not in command and not force_create_func:
             return command
 
         if count is None:
